@@ -38,6 +38,9 @@ func (m *Mutex) TryLock() bool {
 
 func (m *Mutex) Unlock() {
 	verifrt.Yield("unlock", verifrt.CallerSite(1), m, nil)
+	if !m.held.Load() && verifrt.IsAborting() {
+		return // deferred unlock run while a parked thread is being unwound
+	}
 	m.held.Store(false)
 	m.mu.Unlock()
 }
@@ -57,6 +60,9 @@ func (m *RWMutex) Lock() {
 
 func (m *RWMutex) Unlock() {
 	verifrt.Yield("unlock", verifrt.CallerSite(1), m, nil)
+	if !m.writer.Load() && verifrt.IsAborting() {
+		return
+	}
 	m.writer.Store(false)
 	m.mu.Unlock()
 }
@@ -69,6 +75,9 @@ func (m *RWMutex) RLock() {
 
 func (m *RWMutex) RUnlock() {
 	verifrt.Yield("runlock", verifrt.CallerSite(1), m, nil)
+	if m.readers.Load() <= 0 && verifrt.IsAborting() {
+		return
+	}
 	m.readers.Add(-1)
 	m.mu.RUnlock()
 }
